@@ -381,6 +381,7 @@ pub fn gen_session(seed: u64, run: u64, _thorough: bool) -> Session {
         tree,
         ops,
         crashes: Vec::new(),
+        midload: Vec::new(),
         decisions: None,
         hold: None,
         meta: json!({
